@@ -1294,7 +1294,9 @@ def _build_staircase(U, rtol=1e-12, atol=1e-12):
                 # The last transformation, R12 is special and the rotation has
                 # a different form
                 x = U[0, 0]
-                cf = np.sqrt(1 - pow(np.absolute(x), 2))
+                # |x| can exceed 1 by a rounding error when the rest of the column is
+                # (almost) empty; the square root of the negative difference would be nan
+                cf = np.sqrt(max(0.0, 1 - pow(np.absolute(x), 2)))
                 Rij_inv = np.array([[np.conj(x), cf], [-cf, x]])
 
             # Add the transformation to the sequence and update the product
